@@ -11,13 +11,13 @@ git -C /repo worktree add -q --detach $WT HEAD || exit 2
 mkdir -p $WT/tests && cp $SRC/demo.rs $WT/tests/demo.rs
 cd $WT
 echo "== baseline demo (must pass)"
-cargo test --offline --test demo 2>&1 | grep -E "^test result|error(\[|:)" | head -3
+cargo test --offline ${FEATURES:-} --test demo 2>&1 | grep -E "^test result|error(\[|:)" | head -3
 git apply $SRC/patch.diff || { echo "PATCH DOES NOT APPLY"; exit 2; }
 echo "== with change: lib + doc tests (must pass)"
-cargo test --offline --lib 2>&1 | grep -E "^test result|error(\[|:)" | head -3
+cargo test --offline ${FEATURES:-} --lib 2>&1 | grep -E "^test result|error(\[|:)" | head -3
 cargo test --offline --doc 2>&1 | grep -E "^test result|error(\[|:)" | head -3
 echo "== with change: demo (must fail)"
-cargo test --offline --test demo 2>&1 | grep -E "^test result|panicked|error(\[|:)|signal" | head -4
+cargo test --offline ${FEATURES:-} --test demo 2>&1 | grep -E "^test result|panicked|error(\[|:)|signal" | head -4
 cd /verif
 git -C /repo worktree remove --force $WT
 echo "== checks on /repo with the change applied"
